@@ -41,6 +41,9 @@ type FieldInst struct {
 	// NilFreqs: an instance without tokens hands zapx a nil token-frequency map
 	// (as bleve does for fields it did not analyse) instead of an empty one
 	NilFreqs bool `json:"nilfreqs,omitempty"`
+	// Shape: the instance is a geo-shape field; its encoded shape is one more
+	// doc value of the document in this field (when the field has doc values)
+	Shape []byte `json:"shape,omitempty"`
 }
 
 // SynPair is one (lhs term, synonyms) pair yielded by a synonym field.
@@ -315,6 +318,22 @@ func Build(b *Batch) *Seg {
 					per[h.Doc] = map[string]bool{}
 				}
 				per[h.Doc][term] = true
+			}
+		}
+		// geo shapes: the encoded shape of the last shape instance of the field in
+		// a document is one more doc value of that document
+		for dn := range b.Docs {
+			var shape []byte
+			for fi := range b.Docs[dn].Fields {
+				if fld := &b.Docs[dn].Fields[fi]; fld.Name == f && fld.Shape != nil {
+					shape = fld.Shape
+				}
+			}
+			if shape != nil {
+				if per[dn] == nil {
+					per[dn] = map[string]bool{}
+				}
+				per[dn][string(shape)] = true
 			}
 		}
 		s.DV[f] = per
